@@ -183,6 +183,12 @@ func c10Engine(c *lab.Ctx) {
 		c10Edge(c, e, proto)
 		c10Conservation(c, e, clusters, "after timeouts at the edge of a retry "+proto, false)
 	}
+	// (2e) a retry that finds no healthy host any more: the only host of the cluster is marked unhealthy while the first attempt is
+	// in flight, then the upstream closes the connection without answering
+	for _, proto := range engineProtos {
+		c10RetryNoHost(c, e, proto)
+		c10Conservation(c, e, clusters, "after retries that found no healthy host "+proto, false)
+	}
 	// (3) threshold tests, one protocol at a time, nothing else running
 	for _, proto := range engineProtos {
 		c10Threshold(c, e, proto)
@@ -889,4 +895,58 @@ func (t *c10TraceT) unbalanced() map[uint64][]string {
 		}
 	}
 	return out
+}
+
+// c10RetryNoHost: route "oneretry" (single-host cluster, retry on reset, max_retries = 1). The first attempt reaches the upstream,
+// which closes the connection 200 ms later without answering; as soon as the upstream has logged the attempt the harness marks the
+// host unhealthy (what an outlier detector does), so the admitted retry finds no pool. Whatever the client gets, the retries
+// resource, the requests resource and the gauges must be given back (judged by the conservation check that follows); afterwards
+// the host is healthy again and a plain request must be served.
+func c10RetryNoHost(c *lab.Ctx, e *engine, proto string) {
+	var host types.Host
+	if snap := cluster.GetClusterMngAdapterInstance().GetClusterSnapshot(nil, "cl-"+proto+"-one"); snap != nil {
+		snap.HostSet().Range(func(h types.Host) bool { host = h; return false })
+	}
+	if host == nil {
+		c.Inconclusive("c10 retry-no-host: host of cl-" + proto + "-one not found")
+		return
+	}
+	cl := e.newClient(proto, proto+"-nohost")
+	defer cl.close()
+	for rep := 0; rep < c.Pick(3, 10); rep++ {
+		tok := fmt.Sprintf("nohost-%d-%s-%d", c.Batch, proto, rep)
+		c.Case("c10 retry without a healthy host %s token=%s", proto, tok)
+		done := make(chan clEvent, 1)
+		go func() {
+			r := reqFor(proto, "oneretry", tok, "d200:close")
+			r.Body = []byte("retry-no-host")
+			done <- cl.do(r)
+		}()
+		marked := false
+		for i := 0; i < 300 && !marked; i++ {
+			if len(e.log.upsFor(tok)) > 0 {
+				host.SetHealthFlag(api.FAILED_OUTLIER_CHECK)
+				marked = true
+			}
+			time.Sleep(time.Millisecond)
+		}
+		ev := <-done
+		host.ClearHealthFlag(api.FAILED_OUTLIER_CHECK)
+		c.Eval(1)
+		if !marked {
+			c.Inconclusive("c10 retry-no-host: the first attempt never reached the upstream")
+		}
+		c.Distinct(fmt.Sprintf("nohost|%s|%s%d|attempts=%d", proto, ev.Kind, ev.Status, len(e.log.upsFor(tok))))
+		c.Count(fmt.Sprintf("retry-no-host-outcome:%s:%s%d", proto, ev.Kind, ev.Status), 1)
+		if ev.Kind != "response" {
+			cl.close()
+		}
+		// the cluster must serve again
+		t2 := tok + "-after"
+		if ev2 := cl.do(reqFor(proto, "gaw", t2, "ok")); ev2.Kind != "response" || len(e.log.upsFor(t2)) == 0 {
+			c.Violation("limits-trip-at-thresholds", "C10/retry-no-host/cluster-unusable-afterwards/"+proto,
+				fmt.Sprintf("%s: after a retry found no healthy host (host healthy again) a plain request to the cluster got %s %d", proto, ev2.Kind, ev2.Status), map[string]interface{}{"token": t2})
+			cl.close()
+		}
+	}
 }
